@@ -215,6 +215,9 @@ func shJudge(c *mon.Ctx, in *shCase, legacy bool) {
 	}
 	c.Eval(1)
 	tx := s.BuildShared() // scripts packed back to back in one arena: a write behind any of them shows in the snapshot
+	if (int(in.Idx)+int(in.HashType)+len(s.Outs))%3 == 2 && !s.Shared {
+		tx = s.Build() // every script its own allocation; empty scripts in all their spellings (nil slice behind the pointer included)
+	}
 	// what a caller writing length-prefixed data does with the library's varint
 	// encoder: take the prefix and append the payload to it (the result is the
 	// caller's; the library's own length prefixes must not depend on it)
